@@ -1,3 +1,6 @@
+#[cfg(feature = "verif")]
+#[allow(unused_imports)]
+use crate::verif::{core, std};
 #[cfg(not(feature = "std-mutex"))]
 use crate::mutex::{Mutex, MutexGuard};
 use crate::signal::{Signal, SignalTerminator};
@@ -9,8 +12,16 @@ use std::sync::{Mutex, MutexGuard};
 pub(crate) type Internal<T> = Arc<Mutex<ChannelInternal<T>>>;
 
 /// Acquire mutex guard on channel internal for use in channel operations
+#[cfg_attr(feature = "verif", allow(unreachable_code))]
 #[inline(always)]
 pub(crate) fn acquire_internal<T>(internal: &'_ Internal<T>) -> MutexGuard<'_, ChannelInternal<T>> {
+    #[cfg(all(feature = "verif", not(feature = "std-mutex")))]
+    {
+        let guard = internal.lock();
+        crate::verif::note(crate::verif::notes::LOCK_ACQUIRED, 0);
+        crate::verif::write(&*guard as *const ChannelInternal<T> as usize, 1);
+        return guard;
+    }
     #[cfg(not(feature = "std-mutex"))]
     return internal.lock();
     #[cfg(feature = "std-mutex")]
@@ -19,10 +30,23 @@ pub(crate) fn acquire_internal<T>(internal: &'_ Internal<T>) -> MutexGuard<'_, C
 
 /// Tries to acquire mutex guard on channel internal for use in channel
 /// operations
+#[cfg_attr(feature = "verif", allow(unreachable_code))]
 #[inline(always)]
 pub(crate) fn try_acquire_internal<T>(
     internal: &'_ Internal<T>,
 ) -> Option<MutexGuard<'_, ChannelInternal<T>>> {
+    #[cfg(all(feature = "verif", not(feature = "std-mutex")))]
+    {
+        let guard = internal.try_lock();
+        match &guard {
+            Some(g) => {
+                crate::verif::note(crate::verif::notes::TRY_LOCK_ACQUIRED, 0);
+                crate::verif::write(&**g as *const ChannelInternal<T> as usize, 1);
+            }
+            None => crate::verif::note(crate::verif::notes::TRY_LOCK_FAILED, 0),
+        }
+        return guard;
+    }
     #[cfg(not(feature = "std-mutex"))]
     return internal.try_lock();
     #[cfg(feature = "std-mutex")]
@@ -103,6 +127,8 @@ impl<T> ChannelInternal<T> {
     /// Adds new sender signal to the waitlist
     #[inline(always)]
     pub(crate) fn push_send(&mut self, s: SignalTerminator<T>) {
+        #[cfg(feature = "verif")]
+        crate::verif::note(crate::verif::notes::REGISTER_SEND, s.verif_addr());
         self.wait_list.push_back(s);
     }
 
@@ -124,6 +150,8 @@ impl<T> ChannelInternal<T> {
     /// Adds new receiver signal to the waitlist
     #[inline(always)]
     pub(crate) fn push_recv(&mut self, s: SignalTerminator<T>) {
+        #[cfg(feature = "verif")]
+        crate::verif::note(crate::verif::notes::REGISTER_RECV, s.verif_addr());
         self.wait_list.push_back(s);
     }
 
